@@ -1771,3 +1771,38 @@ Proof. vm_compute. reflexivity. Qed.
 Example ex_default_missing_empty_value_given :
   entry_summary (get_matches_with 2 (ex_cmd [ex_m]) [[45;45;109;61]] ps_new) [109] = Some (Some SCmdLine, [[[]]]).
 Proof. vm_compute. reflexivity. Qed.
+
+(** * 11. The model's constant tables are those of the source (regenerated on every run by
+    translators/tables.py into Gen/ActionDefaults.v) *)
+From ClapModel Require Import Gen.ActionDefaults.
+
+Definition action_name (a : action) : bytes :=
+  match a with
+  | ASet => [83; 101; 116] | AAppend => [65; 112; 112; 101; 110; 100]
+  | ASetTrue => [83; 101; 116; 84; 114; 117; 101] | ASetFalse => [83; 101; 116; 70; 97; 108; 115; 101]
+  | ACount => [67; 111; 117; 110; 116] | AHelp => [72; 101; 108; 112]
+  | AHelpShort => [72; 101; 108; 112; 83; 104; 111; 114; 116] | AHelpLong => [72; 101; 108; 112; 76; 111; 110; 103]
+  | AVersion => [86; 101; 114; 115; 105; 111; 110]
+  end.
+Definition all_actions := [ASet; AAppend; ASetTrue; ASetFalse; ACount; AHelp; AHelpShort; AHelpLong; AVersion].
+Definition src_name_bytes (s : src) : bytes :=
+  match s with
+  | SDefault => [68; 101; 102; 97; 117; 108; 116; 86; 97; 108; 117; 101]
+  | SEnv => [69; 110; 118; 86; 97; 114; 105; 97; 98; 108; 101]
+  | SCmdLine => [67; 111; 109; 109; 97; 110; 100; 76; 105; 110; 101]
+  end.
+
+(** [ArgAction::default_value] / [default_missing_value] of the source, arm by arm, are the
+    model's [action_default_value] / [action_default_missing_value]; [ValueSource]'s variants in
+    declaration order are Default < Env < CommandLine with exactly [src_rank] as position, and
+    [is_explicit] excludes exactly [DefaultValue] *)
+Theorem tables_match_source :
+  action_default_value_rows = map (fun a => (action_name a, action_default_value a)) all_actions
+  /\ action_default_missing_value_rows = map (fun a => (action_name a, action_default_missing_value a)) all_actions
+  /\ value_source_variants = map src_name_bytes [SDefault; SEnv; SCmdLine]
+  /\ (forall s, nth_error value_source_variants (N.to_nat (src_rank s)) = Some (src_name_bytes s))
+  /\ (forall s, src_explicit s = negb (beq (src_name_bytes s) value_source_not_explicit)).
+Proof.
+  split; [vm_compute; reflexivity|]. split; [vm_compute; reflexivity|]. split; [vm_compute; reflexivity|].
+  split; intros []; vm_compute; reflexivity.
+Qed.
